@@ -356,19 +356,21 @@ def gen_cases(rng, tier):
 
     for H in range(1, 61):
         for role in "IA":
-            if thorough or (H + (role == "A")) % 2 == 0 or H <= 6:
+            mine = thorough or H <= 4 or (H % 2 == 0) == (role == "A")     # quick: alternate the roles over H
+            if thorough or H <= 4 or (mine and H % 3 != 1):
                 for d in DELTAS:
                     add(hb_boundary(rng, role, H, d), "hb-boundary")
-            for d in (DELTAS if thorough or H <= 10 or H % 5 == 0 else [-1, 0]):
-                add(quiet_boundary(rng, role, H, d, "none"), "quiet-boundary")
-            add(quiet_boundary(rng, role, H, rng.choice([0, 1, NS - 1]), "period"), "testreq-then-period")
-            add(quiet_boundary(rng, role, H, 0, "answer"), "testreq-answered")
-            add(quiet_boundary(rng, role, H, rng.choice([0, 1, NS - 1]), "traffic"), "testreq-then-traffic")
-            if thorough or H % 4 == 1 or H <= 5:
-                add(quiet_boundary(rng, role, H, rng.choice([0, 1, NS - 1]), "next"), "testreq-then-next-tick")
-            if thorough or H % 6 == 2:
-                add(quiet_boundary(rng, role, H, 0, "short"), "testreq-then-short")
-            for _ in range(6 if thorough else 2):
+            if mine:
+                for d in (DELTAS if thorough or H <= 6 or H % 10 == 0 else [-1, 0]):
+                    add(quiet_boundary(rng, role, H, d, "none"), "quiet-boundary")
+                add(quiet_boundary(rng, role, H, rng.choice([0, 1, NS - 1]), "period"), "testreq-then-period")
+                add(quiet_boundary(rng, role, H, 0, "answer"), "testreq-answered")
+                add(quiet_boundary(rng, role, H, rng.choice([0, 1, NS - 1]), "traffic"), "testreq-then-traffic")
+                if thorough or H % 4 <= 1 or H <= 5:
+                    add(quiet_boundary(rng, role, H, rng.choice([0, 1, NS - 1]), "next"), "testreq-then-next-tick")
+                if thorough or H % 6 == 2:
+                    add(quiet_boundary(rng, role, H, 0, "short"), "testreq-then-short")
+            for _ in range(6 if thorough else (2 if H <= 10 else 1)):
                 add(random_timeline(rng, role, H), "random-timeline")
         role = rng.choice("IA")
         add(testreq_in(rng, role, H, rng.choice(["continuous", "continuous", "pending", "prelogon", "stopped"])), "testreq-in")
